@@ -63,6 +63,98 @@ def _publish_calls(fn_node):
     return out
 
 
+def _alts(du, e, at, depth=5, stop=()):
+    """All expressions a path expression can stand for: names expanded through every reaching definition,
+    conditional expressions through both arms (a constant test selects its arm)."""
+    if depth == 0:
+        return [(e, at)]
+    if isinstance(e, ast.IfExp):
+        ok, tv = const_value(e.test)
+        arms = [e.body if tv else e.orelse] if ok else [e.body, e.orelse]
+        out = []
+        for a in arms:
+            out += _alts(du, a, at, depth - 1, stop)
+        return out
+    if isinstance(e, ast.Name) and e.id not in stop:
+        ds = du.strong_reaching(e.id, at)
+        if ds and all(d.kind == "assign" and d.value is not None and d.unpack_index is None for d in ds):
+            out = []
+            for d in ds:
+                out += _alts(du, d.value, d.stmt, depth - 1, stop)
+            return out
+    return [(e, at)]
+
+
+def _nonempty_const(e):
+    ok, v = const_value(e)
+    return ok and isinstance(v, str) and len(v) > 0
+
+
+def _extends(e, base_norm, attr):
+    """`<base>.<attr> + "<non-empty literal>"`"""
+    return (isinstance(e, ast.BinOp) and isinstance(e.op, ast.Add) and _nonempty_const(e.right)
+            and isinstance(e.left, ast.Attribute) and e.left.attr == attr and src(e.left.value) == base_norm)
+
+
+def _distinct_from(tmp, final_name):
+    """Is the path expression `tmp` provably a different name than the local `final_name`?
+    Accepted forms: F.with_suffix(F.suffix + "x"), F.with_name(F.name + "x"), F.parent / (F.name + "x"),
+    Path(str(F) + "x")."""
+    if isinstance(tmp, ast.Call) and call_name(tmp) == "with_suffix" and tmp.args and src(receiver(tmp)) == final_name:
+        return _extends(tmp.args[0], final_name, "suffix")
+    if isinstance(tmp, ast.Call) and call_name(tmp) == "with_name" and tmp.args and src(receiver(tmp)) == final_name:
+        return _extends(tmp.args[0], final_name, "name")
+    if isinstance(tmp, ast.BinOp) and isinstance(tmp.op, ast.Div) and src(tmp.left) == final_name + ".parent":
+        return _extends(tmp.right, final_name, "name")
+    if isinstance(tmp, ast.Call) and call_name(tmp) == "Path" and len(tmp.args) == 1:
+        a = tmp.args[0]
+        return (isinstance(a, ast.BinOp) and isinstance(a.op, ast.Add) and _nonempty_const(a.right)
+                and src(a.left) == f"str({final_name})")
+    return False
+
+
+def _callee_publishes(ctx, callee, param):
+    """Summary of a repo function that is handed the final name as `param`: does it write under a different name
+    and create the final name only by rename/replace/move of that file, after the writer returned?
+    -> (ok, [(node, reason)])"""
+    repo = ctx.repo
+    du = DefUse(callee.node)
+    cfg = du.cfg
+    prods = [c for c in find(callee.node, ast.Call, nested=False)
+             if repo.resolve_call(callee, c) in ("mtscomp.decompress", "mtscomp.compress")]
+    if not prods:
+        return False, [(callee.node, f"{callee.qualname} has no mtscomp producer call")]
+    pubs = _publish_calls(callee.node)
+    problems = []
+    if not pubs:
+        return False, [(prods[0], f"{callee.qualname} writes `{src(kwarg(prods[0], 'out') or prods[0])}` and never renames: the name it is given is written directly")]
+    for p in prods:
+        out = kwarg(p, "out")
+        if out is None:
+            problems.append((p, "the writer is not given an explicit out="))
+            continue
+        for (pc, psrc, pdst) in pubs:
+            fin = loc_name(pdst)
+            if fin is None:
+                problems.append((pc, f"publish destination {src(pdst)} is not a local name"))
+                continue
+            # the destination derives from the parameter
+            derives = any(isinstance(n, ast.Name) and n.id == param
+                          for a, _ in _alts(du, pdst, pc) for n in ast.walk(a))
+            if not derives:
+                problems.append((pc, f"publish destination {src(pdst)} does not derive from parameter `{param}`"))
+            if loc_name(psrc) is None or loc_name(psrc) != loc_name(out):
+                problems.append((pc, f"`{src(pc)}` publishes {src(psrc)} but the writer wrote {src(out)}"))
+            for a, at in _alts(du, out, p, stop=(fin,)):
+                if isinstance(a, ast.Name) and a.id == fin or not _distinct_from(a, fin):
+                    why = "the final name itself" if isinstance(a, ast.Name) and a.id == fin else f"`{src(a)}`, not provably different from the final name"
+                    problems.append((at if hasattr(at, "lineno") else p,
+                                     f"the writer's out= ({src(out)}) can be {why} ({fin}): a partially written file carries the final name"))
+            if not cfg.must_pass([cfg.node_for(p)], cfg.node_for(pc)):
+                problems.append((pc, "the rename can execute before the writer has completed"))
+    return not problems, problems
+
+
 def _atomic(ctx, q, producer_pred, label):
     repo = ctx.repo
     fi = repo.fn(q)
@@ -83,6 +175,26 @@ def _atomic(ctx, q, producer_pred, label):
         for r in returns_of(fi.node):
             if r.value is not None:
                 finals.append(r.value)
+        callee_q = repo.resolve_call(fi, p)
+        if not pubs and callee_q in repo.functions and repo.fn(callee_q).qualname.startswith("spikeglx."):
+            # the producer is a repo function handed the final name: decide on its own staging discipline
+            callee = repo.fn(callee_q)
+            okc, problems = _callee_publishes(ctx, callee, "out")
+            if okc:
+                ctx.ok(fi, p, p, f"{callee_q} stages its output next to `out` and publishes it by rename after the writer returned")
+                for r in returns_of(fi.node):
+                    if r.value is not None and loc_name(r.value) is not None:
+                        ctx.check(loc_name(r.value) == loc_name(out), fi, r, r, "the function returns the published (final) path",
+                                  f"`{src(r)}` does not return the path handed to the producer ({src(out)})", key="return-final")
+            else:
+                seen = set()
+                for node, why in problems:
+                    if why in seen:
+                        continue
+                    seen.add(why)
+                    ctx.violation(callee, node, node, f"{fi.qualname} hands the final name to {callee.qualname} (out={src(out)}) and {why}",
+                                  key="callee-direct:" + why[:40], name_free=True)
+            continue
         if not pubs:
             ctx.violation(fi, p, p, f"output is produced directly (out={src(out)}) and never published by rename/move: a partial file "
                           "can carry the final name", key="no-publish")
